@@ -13,6 +13,7 @@ import (
 	"strings"
 
 	"github.com/goghcrow/yae/conv"
+	sqlext "github.com/goghcrow/yae/ext/sql"
 	"github.com/goghcrow/yae/fun"
 	"github.com/goghcrow/yae/parser/lexer"
 	"github.com/goghcrow/yae/parser/oper"
@@ -159,6 +160,36 @@ func main() {
 	fmt.Fprintf(&b, "def bpMember : UInt64 := 0x%016x\n", math.Float64bits(float64(oper.BP_MEMBER)))
 	b.WriteString("\nend Yae.Gen\n")
 	writeIfChanged(filepath.Join(dir, "Consts.lean"), b.String())
+
+	// the SQL function table: signature, what the formatter makes of placeholder arguments, and
+	// the precedence of the logical connectives
+	b.Reset()
+	b.WriteString(hdr)
+	b.WriteString("/-- `sql.BuiltIn()` in registration order: rendered signature, the text the registered\n")
+	b.WriteString("formatter produces for the arguments `<0>`, `<1>`, … and, for a logical connective, its\n")
+	b.WriteString("precedence in `logicalFunPrecTbl` (float32 widened, as bits) -/\n")
+	b.WriteString("def sqlFuns : List (String × String × Option UInt64) := [\n")
+	precs := sqlext.LogicalPrecHook()
+	sfs := sqlext.BuiltIn()
+	for i, f := range sfs {
+		sep := ","
+		if i == len(sfs)-1 {
+			sep = ""
+		}
+		n := len(f.Fun().Type.Fun().Param)
+		args := make([]*val.Val, n)
+		for j := range args {
+			args[j] = val.Str(fmt.Sprintf("<%d>", j))
+		}
+		out := f.Fun().Call(args...).Str().V
+		prec := "none"
+		if bp, ok := precs[f]; ok {
+			prec = fmt.Sprintf("some 0x%016x", math.Float64bits(float64(bp)))
+		}
+		fmt.Fprintf(&b, "  (%s, %s, %s)%s\n", q(normSig(f.Type.String())), q(out), prec, sep)
+	}
+	b.WriteString("]\n\nend Yae.Gen\n")
+	writeIfChanged(filepath.Join(dir, "Sql.lean"), b.String())
 
 	writeIfChanged(filepath.Join(dir, "Shared.lean"), sharedLean(repoRoot()))
 }
